@@ -3,6 +3,7 @@ package main
 
 import (
 	"github.com/drand/drand/v2/zzverif/cli"
+	"github.com/drand/drand/v2/zzverif/engnode"
 	"github.com/drand/drand/v2/zzverif/engtime"
 	"github.com/drand/drand/v2/zzverif/extract"
 )
@@ -11,5 +12,6 @@ func main() {
 	cli.Main(map[string]cli.RunFn{
 		"extract": func(out string, _ int64, _ string) error { return extract.Run(cli.Repo, out) },
 		"time":    engtime.Run,
+		"node":    engnode.Run,
 	})
 }
